@@ -15,7 +15,7 @@ THEOREMS = ["Econf.C19_block_shown", "Econf.C19_key_in_block", "Econf.C19_key_sh
 LEAF_FNS = ["replace_str"]
 SHRINK = False
 RULE = ("two-layer trees under $ECONFTOOL_ROOT (vendor /usr/etc, local /etc) and single absolute files x --delimiters/--comment choices "
-        "x files with only group-less keys, only sections, both, key-less sections, multi-line values, malformed lines: the freshly built "
+        "x files with only group-less keys, only sections, both, key-less sections, multi-line values, UTF-8 and other non-ASCII bytes and control characters in names, keys and values, malformed lines: the freshly built "
         "econftool (ASan) is run with show, syntax and cat; its output is compared with the library's result for the same tree "
         "(harness), with the Lean model of the printer, and decoded back into sections/keys/values; distinct by (tree, arguments)")
 HEADER_LINES = 4
@@ -25,7 +25,10 @@ CONTENTS = [b"retry=5\nhost=example\ntimeout=30\nlog_target=syslog\nfvn=r\n", b"
             # section names that contain brackets or blanks themselves
             b"[[unit]]\nu=1\nv=2\n[tail]\nlast=yes\n", b"a=0\n[a b]\nx=1\n[[x]\ny=2\n[z]]\nw=3\n",
             # a section that is opened again further down, with another one in between
-            b"[net]\nhost=example\n[log]\nlevel=info\n[net]\nport=22\n", b"[S]\nx=1\n[T]\ny=2\n[S]\nz=3\n[T]\nw=4\n"]
+            b"[net]\nhost=example\n[log]\nlevel=info\n[net]\nport=22\n", b"[S]\nx=1\n[T]\ny=2\n[S]\nz=3\n[T]\nw=4\n",
+            # bytes beyond ASCII (UTF-8 text, bytes that are no text at all) and control characters in names, keys and values
+            b"motd=Gr\xc3\xbc\xc3\x9fe\n[se\xc3\xb1al]\ngr\xc3\xb6\xc3\x9fe=12\ntitle=Caf\xc3\xa9 \xe2\x80\x93 men\xc3\xba\n",
+            b"raw=\xff\xfe\x80\n[\xe6\x97\xa5\xe6\x9c\xac]\nk=\xe8\xaa\x9e\n  \xc3\x96l\n", b"esc=\x1b[1mbold\x1b[0m\nbell=a\x07b\x01\n"]
 BAD = [b"[broken\nx=1\n", b"a=1\n[S] tail\n", b"a=1\nb=2\n[]\n", b"k v\n"]
 
 
